@@ -136,6 +136,12 @@ static uint64_t use_instance(int desc, int c, int report)
     vh_op("liberasurecode_verify_stripe_metadata");
     int vs = liberasurecode_verify_stripe_metadata(desc, F, n);
     if ((rc || iv || vs) && report) vh_violation("live-instance-unusable", "%s: metadata=%d is_invalid=%d verify_stripe=%d on freshly encoded fragments", g->name, rc, iv, vs);
+    /* the availability query: the back end of this live instance (its library is loaded), flat-XOR (always linked) and the
+     * out-of-range id - the ones that cost no load/unload of a shared library per use */
+    { int av[3]; vh_op("liberasurecode_backend_available"); vh_transitions(3);
+      av[0] = liberasurecode_backend_available((ec_backend_id_t)g->be); av[1] = liberasurecode_backend_available(EC_BACKEND_FLAT_XOR_HD); av[2] = liberasurecode_backend_available(EC_BACKENDS_MAX);
+      h = mix(h, av, sizeof av);
+      if (report && (!av[0] || !av[1] || av[2])) vh_violation("live-instance-unusable", "%s: backend_available says %d for the back end of a live instance, %d for flat_xor_hd and %d for the out-of-range id", g->name, av[0], av[1], av[2]); }
     for (int i = 0; i < n; i++) free(copies[i]);
     liberasurecode_encode_cleanup(desc, ed, ep);
     if (report && (ledger_count() != lc0 || ledger_bytes() != lb0)) { char dd[160]; ledger_dump(dd, sizeof dd); vh_violation("leak", "%s: using the instance and cleaning up left %ld blocks / %ld bytes (live sizes %s)", g->name, ledger_count() - lc0, ledger_bytes() - lb0, dd); }
@@ -144,7 +150,7 @@ static uint64_t use_instance(int desc, int c, int report)
 static void use_and_compare(int slot, const char *when)
 {
     uint64_t h = use_instance(M.desc[slot], M.cfg[slot], 1);
-    if (h && h != golden[M.cfg[slot]]) vh_violation("history-dependent-output", "%s: outputs of the %s instance (descriptor %d) differ from those of a fresh process", when, CFG[M.cfg[slot]].name, M.desc[slot]);
+    if (h && golden[M.cfg[slot]] && h != golden[M.cfg[slot]]) vh_violation("history-dependent-output", "%s: outputs of the %s instance (descriptor %d) differ from those of a fresh process", when, CFG[M.cfg[slot]].name, M.desc[slot]);
 }
 
 /* every entry point on a descriptor that is not live must be refused */
@@ -386,7 +392,16 @@ static void golden_child(void *p)
 }
 static void compute_golden(void)
 {
-    for (int c = 0; c < NGOOD; c++) { char out[64]; int cc = c; if (in_child(golden_child, &cc, out, sizeof out)) { fprintf(stderr, "golden run failed for %s\n", CFG[c].name); exit(2); } golden[c] = strtoul(out, NULL, 16); if (!golden[c]) { fprintf(stderr, "golden run produced nothing for %s\n", CFG[c].name); exit(2); } }
+    /* the outputs of each configuration in a fresh process. If that run itself crashes or produces nothing, a fresh instance is unusable:
+     * reported once as a violation (group H/golden), and the golden comparison for that configuration is switched off */
+    for (int c = 0; c < NGOOD; c++) {
+        char out[64]; int cc = c; int rc = in_child(golden_child, &cc, out, sizeof out);
+        golden[c] = rc ? 0 : strtoul(out, NULL, 16);
+        if (!golden[c] && vh_group_begin("H/golden/%s", CFG[c].name)) {
+            if (vh_case_begin("fresh-process")) { vh_nontrivial(); vh_op("fresh-instance"); vh_violation(rc ? "crash" : "live-instance-unusable", "create + use of a %s instance in a fresh process %s", CFG[c].name, rc ? "crashed" : "failed"); }
+            vh_group_end();
+        }
+    }
 }
 
 static void plan_states(void)
